@@ -70,6 +70,19 @@ class CVIART(BaseART):
         """
         self.base_module.validate_data(X)
 
+    def check_dimensions(self, X: np.ndarray):
+        """Check the data has the correct dimensions.
+
+        The width learned by fit is remembered by the base module.
+
+        Parameters
+        ----------
+        X : np.ndarray
+            The dataset.
+
+        """
+        self.base_module.check_dimensions(X)
+
     def prepare_data(self, X: np.ndarray) -> np.ndarray:
         """Prepare data for clustering.
 
